@@ -10,11 +10,13 @@ Open Scope N_scope.
 Definition ge : genv := globals (p_globals src_pure).
 
 (* environment seen by the body of [name]: the functions listed before it *)
-Definition env_of (name : string) (fuel : nat) : fenv := env_in src_pure name fuel.
+Definition env_of (base : fenv) (name : string) (fuel : nat) : fenv := env_in_with src_pure base name fuel.
 
-Ltac link_step name f := rewrite (call_env src_pure name f eq_refl eq_refl).
+(* [base] is the environment of external functions (oracles) under the program;
+   the statements about [call] are the instances with [no_fns] *)
+Ltac link_step name f := rewrite (call_env_with src_pure _ name f eq_refl eq_refl).
 Ltac callee caller name g :=
-  rewrite (env_call src_pure caller name g eq_refl eq_refl eq_refl eq_refl eq_refl).
+  rewrite (env_call_with src_pure _ caller name g eq_refl eq_refl eq_refl eq_refl eq_refl).
 
 (* ---------------------------------------------------------------- the table *)
 
@@ -140,32 +142,32 @@ Qed.
 
 (* ---------------------------------------------------------------- linked program *)
 
-Lemma src_crc_init_ok fuel s : call src_pure fuel "crc.init" [VN s] = Ok [VN crc_init].
+Lemma src_crc_init_ok base fuel s : call_with src_pure base fuel "crc.init" [VN s] = Ok [VN crc_init].
 Proof. link_step "crc.init"%string src_fn_crc_init. apply run_crc_init. Qed.
 
-Lemma src_crc_add_ok fuel s l : bytesb l = true ->
-  call src_pure fuel "crc.add" [VN s; vbytes l] = Ok [VN (crc_from s l)].
+Lemma src_crc_add_ok base fuel s l : bytesb l = true ->
+  call_with src_pure base fuel "crc.add" [VN s; vbytes l] = Ok [VN (crc_from s l)].
 Proof. intros H. link_step "crc.add"%string src_fn_crc_add. apply run_crc_add. exact H. Qed.
 
-Lemma src_uint16ToBytes_ok fuel e v :
-  call src_pure fuel "uint16ToBytes" [VN (endian_sel e); VN v] = Ok [vbytes (u16_to_bytes e v)].
+Lemma src_uint16ToBytes_ok base fuel e v :
+  call_with src_pure base fuel "uint16ToBytes" [VN (endian_sel e); VN v] = Ok [vbytes (u16_to_bytes e v)].
 Proof. link_step "uint16ToBytes"%string src_fn_uint16ToBytes. apply run_uint16ToBytes. Qed.
 
-Lemma src_bytesToUint16_ok fuel e l :
-  call src_pure fuel "bytesToUint16" [VN (endian_sel e); vbytes l] =
+Lemma src_bytesToUint16_ok base fuel e l :
+  call_with src_pure base fuel "bytesToUint16" [VN (endian_sel e); vbytes l] =
   match bytes_to_u16 e l with Some v => Ok [VN v] | None => Panic end.
 Proof. link_step "bytesToUint16"%string src_fn_bytesToUint16. apply run_bytesToUint16. Qed.
 
-Lemma src_crc_value_ok fuel s :
-  call src_pure fuel "crc.value" [VN s] = Ok [VN s; vbytes (crc_value s)].
+Lemma src_crc_value_ok base fuel s :
+  call_with src_pure base fuel "crc.value" [VN s] = Ok [VN s; vbytes (crc_value s)].
 Proof.
   link_step "crc.value"%string src_fn_crc_value. apply run_crc_value. intros e v.
   callee "crc.value"%string "uint16ToBytes"%string src_fn_uint16ToBytes.
   apply src_uint16ToBytes_ok.
 Qed.
 
-Lemma src_crc_isEqual_ok fuel s lo hi :
-  call src_pure fuel "crc.isEqual" [VN s; VN lo; VN hi] = Ok [VN s; VB (crc_is_equal s lo hi)].
+Lemma src_crc_isEqual_ok base fuel s lo hi :
+  call_with src_pure base fuel "crc.isEqual" [VN s; VN lo; VN hi] = Ok [VN s; VB (crc_is_equal s lo hi)].
 Proof.
   link_step "crc.isEqual"%string src_fn_crc_isEqual. apply run_crc_isEqual. intros e l.
   callee "crc.isEqual"%string "bytesToUint16"%string src_fn_bytesToUint16.
@@ -174,19 +176,19 @@ Qed.
 
 (* the checksum of a whole frame body, as the transports compute it:
    init; add(body); value() *)
-Lemma src_crc_of_body fuel l : bytesb l = true ->
+Lemma src_crc_of_body base fuel l : bytesb l = true ->
   exists s0,
-    call src_pure fuel "crc.init" [VN 0] = Ok [VN s0] /\
-    exists s1, call src_pure fuel "crc.add" [VN s0; vbytes l] = Ok [VN s1] /\
-    call src_pure fuel "crc.value" [VN s1] = Ok [VN s1; vbytes (crc_bytes l)].
+    call_with src_pure base fuel "crc.init" [VN 0] = Ok [VN s0] /\
+    exists s1, call_with src_pure base fuel "crc.add" [VN s0; vbytes l] = Ok [VN s1] /\
+    call_with src_pure base fuel "crc.value" [VN s1] = Ok [VN s1; vbytes (crc_bytes l)].
 Proof.
   intros Hl. exists crc_init. split; [apply src_crc_init_ok|].
   exists (crc16 l). split; [apply src_crc_add_ok; exact Hl|].
   apply src_crc_value_ok.
 Qed.
 
-Lemma src_crc_add_ref fuel l : bytesb l = true ->
-  call src_pure fuel "crc.add" [VN 0xffff; vbytes l] = Ok [VN (crc_ref l)].
+Lemma src_crc_add_ref base fuel l : bytesb l = true ->
+  call_with src_pure base fuel "crc.add" [VN 0xffff; vbytes l] = Ok [VN (crc_ref l)].
 Proof.
   intros Hl. rewrite src_crc_add_ok by exact Hl.
   change (crc_from 65535 l) with (crc16 l).
